@@ -593,7 +593,10 @@ def read_topmatter(text: str | Iterator[str]) -> dict[str, Any] | None:
         top_matter.append(line.rstrip() + "\n")
     try:
         metadata = yaml.safe_load("".join(top_matter))
-    except (yaml.parser.ParserError, yaml.scanner.ScannerError) as err:
+    except Exception as err:
+        # any failure to load the YAML (not only parser/scanner errors:
+        # PyYAML also raises e.g. ComposerError, ConstructorError, ReaderError,
+        # and ValueError/KeyError/OverflowError from its scalar constructors)
         raise TopmatterReadError("Malformed YAML") from err
     if not isinstance(metadata, dict):
         raise TopmatterReadError(f"YAML is not a dict: {type(metadata)}")
